@@ -419,14 +419,14 @@ def occupancy_jobs3(ctx):
     """the six shipped configurations of composite objects with cells, recording the occupancies at every leg, and generated variants
     with more molecules / other sampling intervals"""
     rng = ctx.rng
-    cap = ctx.n(2500, 12000)
+    cap = ctx.n(1200, 12000)
     jobs = []
     shipped = [runs.CFG + x for x in SHIPPED_IN_WORLD[:5]] + ["config_files/" + SHIPPED_IN_WORLD[5]]
     for k, ini in enumerate(shipped):
         t_end = rng.choice([7.5, 20]) if ctx.quick else rng.choice([50, 111.5])
         jobs.append({"ini": ini, "seed": ctx.seed * 1000 + 900 + k, "max_legs": cap, "kind": "shipped-fp3",
                      "overrides": {"FinalTimeEndOfRunEventHandler": {"end_of_run_time": t_end}}, "extras": ["occupancy"]})
-    for k in range(ctx.n(4, 10)):
+    for k in range(ctx.n(3, 10)):
         base = rng.choice(shipped[:5])
         n = rng.randint(3, 6)
         ov = {"RandomInputHandler": {"number_of_root_nodes": n},
